@@ -640,21 +640,32 @@ impl<'a> Codec<'a> {
                     out[i].1 = v;
                     b = r;
                 }
-                Card::Opt => {
-                    if let Ok((v, r)) = self.dec_elem(f, b, false) {
+                // "present iff it decodes".  Whether bytes with nibbles A-F "decode" as BCD is
+                // outside every claim, so such inputs are not given a meaning by the reference
+                // (the error is propagated instead of being read as "absent").
+                Card::Opt => match self.dec_elem(f, b, false) {
+                    Ok((v, r)) => {
                         out[i].1 = Val::some(v);
                         b = r;
                     }
-                }
+                    Err(RefErr::BadDigit) => return Err(RefErr::BadDigit),
+                    Err(_) => {}
+                },
                 Card::Many => {
                     let mut items = vec![];
-                    while let Ok((v, r)) = self.dec_elem(f, b, false) {
-                        // an element that consumes nothing would repeat forever: ill-formed layout
-                        if r.len() == b.len() {
-                            break;
+                    loop {
+                        match self.dec_elem(f, b, false) {
+                            Ok((v, r)) => {
+                                // an element that consumes nothing would repeat forever: ill-formed layout
+                                if r.len() == b.len() {
+                                    break;
+                                }
+                                items.push(v);
+                                b = r;
+                            }
+                            Err(RefErr::BadDigit) => return Err(RefErr::BadDigit),
+                            Err(_) => break,
                         }
-                        items.push(v);
-                        b = r;
                     }
                     out[i].1 = Val::List(items);
                 }
